@@ -119,3 +119,27 @@ Print Assumptions C09_conflict_renames. Print Assumptions C09_dec_injective. Pri
 Print Assumptions C09_announce_three. Print Assumptions C09_announce_content. Print Assumptions C09_nsec_iff.
 Print Assumptions C09_flush_bits. Print Assumptions C09_one_name_once. Print Assumptions C09_registry_stays_consistent.
 Print Assumptions C09_late_turn_refuted.
+
+(* ---- the model's comparisons are the ones the source writes now (Gen/Sites.v is regenerated from /repo on every run; the conjuncts,
+   with the model line each stands for, are spelled out in Proofs/Sites_ops.v) ---- *)
+From ZC Require Import Gen.Sites Proofs.Sites_ops.
+Theorem C09_site_ops : sites_C09_ops. Proof. exact sites_C09_ops_ok. Qed.
+Print Assumptions C09_site_ops.
+From ZC Require Import Proofs.Sites_C09.
+Theorem C09_site_check_loop : forall f c now k acc,
+  check_loop (S f) c now k acc =
+  if negb (sop_apply site_reg_probe_count (ck_i k) site_reg_probe_count_rhs) then (k, acc ++ [CDone]) else
+  match rename_loop (rename_fuel c k) c now k with
+  | None => (k, acc ++ [CRaise OtherError])
+  | Some (Raise e) => (k, acc ++ [CRaise e])
+  | Some (Ok k1) =>
+      if sop_apply site_reg_probe_wait now (ck_next k1) then (k1, acc ++ [CWait (ck_next k1 - now)])
+      else
+        check_loop f c now
+          {| ck_svc := ck_svc k1; ck_instance := ck_instance k1; ck_num := ck_num k1;
+             ck_next := ck_next k1 + C_CHECK_TIME; ck_i := ck_i k1 + 1;
+             ck_allow := ck_allow k1; ck_strict := ck_strict k1 |}
+          (acc ++ [CProbe now (probe_question (ck_svc k1)) (dns_pointer (ck_svc k1))])
+  end.
+Proof. exact tie_check_loop. Qed.
+Print Assumptions C09_site_check_loop.
